@@ -34,7 +34,9 @@ func NewPij(m Model, l float64) (pij *Pij, err error) {
 }
 
 func (pij *Pij) SetLength(l float64) (err error) {
-	if pij.length != l && !pij.model.Analytical() {
+	// Recomputed even when the length is unchanged: the model may have been
+	// initialised with other parameters since the last call
+	if !pij.model.Analytical() {
 		var i, j, k int
 		var val []float64
 		var left, right *mat.Dense
